@@ -611,6 +611,14 @@ impl Sim {
             let dcommit = self.nodes[i].durable.initial_state().unwrap().hard_state.commit;
             match self.nodes[i].to_apply.front() {
                 Some(e) if e.index <= dcommit => {}
+                Some(_) if self.nodes[i].unsynced.front().map_or(false, |r| !r.must_sync) => {
+                    // the commit index that covers the entry sits in a write the application left
+                    // unsynced because it did not ask for must_sync: it is fsynced before applying
+                    while self.nodes[i].unsynced.front().map_or(false, |r| !r.must_sync) {
+                        self.fsync_one(i);
+                    }
+                    continue;
+                }
                 _ => break,
             }
             let e = self.nodes[i].to_apply.pop_front().unwrap();
